@@ -655,6 +655,16 @@ func (fr *frame) appendOp(args []SV, cur *State, rtyp types.Type) SV {
 func (fr *frame) copyOp(args []SV, cur *State, rtyp types.Type) SV {
 	vc := fr.vc
 	d, s := args[0], args[1]
+	if o, ok := vc.arrOrigin[d.t]; ok && vc.sortOf(s.typ) == "Bytes" {
+		// value mode, copy(arr[:], src): the whole array is overwritten when len(src) >= len(arr); otherwise the
+		// new content is not tracked. A full overwrite from a string of exactly len(arr) bytes yields akey(src).
+		vc.usePrelude("akey")
+		nr := vc.fresh("cparr", "(Array Int Int)")
+		vc.assume(implies(eq(app("bytes_len", s.t), num(o.n)), eq(nr, app("akey", s.t))))
+		vc.storeLoc(cur, o.loc, nr)
+		n := vc.nameTerm2("cpn", ite(le(num(o.n), app("bytes_len", s.t)), num(o.n), app("bytes_len", s.t)), "Int")
+		return SV{t: n, typ: rtyp}
+	}
 	dt, ok := d.typ.Underlying().(*types.Slice)
 	if !ok || vc.sortOf(d.typ) != "Slice" || vc.sortOf(s.typ) != "Slice" {
 		vc.errorf("copy on %s, %s", d.typ, s.typ)
